@@ -26,7 +26,9 @@ def run(seq):
         vips = vipfile.VipMgr('192.168.0.0/29', os.path.join(root, 'vips'), owners_dir)
         os.makedirs(os.path.join(root, 'rules'))
         rules = rulefile.RuleMgr(os.path.join(root, 'rules'), owners_dir)
-        model_v, model_r = {}, {}
+        model_v, model_r, model_e = {}, {}, {}
+        os.makedirs(os.path.join(root, 'endpoints'))
+        eps = endpoints.EndpointsMgr(os.path.join(root, 'endpoints'))
         alive = set()
         for op in seq:
             k = op[0]
@@ -76,6 +78,21 @@ def run(seq):
                 rules.unlink_rule('c1', rule, op[1])
                 if model_r.get(key) == op[1]:
                     del model_r[key]
+            elif k == 'ecreate':
+                # (appname, endpoint, owner): the recorded owner is the symlink target
+                spec = (op[1], 'tcp', op[2], 4000, 1, 80)
+                try:
+                    eps.create_spec(*spec, owner=os.path.join(owners_dir, op[3]))
+                    ok = True
+                except OSError:
+                    ok = False
+                if ok and spec not in model_e:
+                    model_e[spec] = op[3]
+            elif k == 'eunlink':
+                spec = (op[1], 'tcp', op[2], 4000, 1, 80)
+                eps.unlink_spec(*spec, owner=op[3])
+                if model_e.get(spec) == op[3]:
+                    del model_e[spec]
             elif k == 'rgc':
                 rules.garbage_collect()
                 for key, o in list(model_r.items()):
@@ -84,6 +101,13 @@ def run(seq):
             real_v = {ip: o for ip, o in vips.list()}
             if real_v != model_v:
                 errs.append('vips are %r, expected %r after %r' % (real_v, model_v, op))
+                break
+            real_e = {name: os.path.basename(os.readlink(os.path.join(root, 'endpoints', name)))
+                      for name in os.listdir(os.path.join(root, 'endpoints'))}
+            exp_e = {endpoints._namify(appname=k2[0], proto=k2[1], endpoint=k2[2], real_port=k2[3], pid=k2[4],
+                                       port=k2[5]): o for k2, o in model_e.items()}
+            if real_e != exp_e:
+                errs.append('endpoint specs are %r, expected %r after %r' % (real_e, exp_e, op))
                 break
             real_r = {}
             for name in os.listdir(os.path.join(root, 'rules')):
@@ -118,8 +142,12 @@ def rand_seq(rng):
             seq.append(('rcreate', o, rng.choice(ips), rng.choice(ips)))
         elif c < 0.9:
             seq.append(('runlink', o, rng.choice(ips), rng.choice(ips)))
-        else:
+        elif c < 0.94:
             seq.append(('rgc',))
+        elif c < 0.98:
+            seq.append(('ecreate', rng.choice(['p.a#1', 'p.a#2']), rng.choice(['http', 'ssh']), o))
+        else:
+            seq.append(('eunlink', rng.choice(['p.a#1', 'p.a#2']), rng.choice(['http', 'ssh']), o))
     return seq
 
 
